@@ -19,6 +19,18 @@ SRD   == [op |-> "srd", c |-> 0]
 SWD   == [op |-> "swd", c |-> 0]
 EFD   == [op |-> "efd", c |-> 0]
 Capabilities == {"hj", "fl", "srd", "swd", "efd"}
+(* Writing THROUGH a std-lib helper that probes the writer for optional      *)
+(* interfaces (io.ReaderFrom, io.StringWriter) before falling back to Write: *)
+(*   1..5  io.Copy / io.CopyBuffer(w, src) with a source that                 *)
+(*         1 returns its data and then (0, EOF)      2 returns the last data  *)
+(*         TOGETHER with EOF      3 returns (0, nil) now and then             *)
+(*         4 has a WriteTo of its own      5 fails after a prefix             *)
+(*   6 io.WriteString(w, s)      7 fmt.Fprintf(w, ...)      8 http.ServeContent *)
+(* However many Write / ReadFrom / WriteString calls that becomes underneath, *)
+(* the client must get the source's bytes exactly (for 5: the prefix before   *)
+(* the error, and the helper must return that error).  One "cp" call stands   *)
+(* for the whole byte string; a negative c means "not those bytes".           *)
+CP(k) == [op |-> "cp", c |-> k]
 
 (* FOREIGN middlewares placed before the LogMiddleware may wrap the          *)
 (* ResponseWriter.  http.ResponseController looks for a capability at each   *)
@@ -58,8 +70,20 @@ BehOps(b) ==
       [] b = "flfirst" -> <<FL, WH(500)>>           \* the flush has already sent 200
       [] b = "deadline" -> <<SRD, SWD, WH(200), W>>
       [] b = "duplex"  -> <<EFD, W>>
+      \* std-lib helpers
+      [] b = "cpsep"   -> <<WH(202), CP(1)>>
+      [] b = "cpwith"  -> <<WH(202), CP(2)>>
+      [] b = "cpzero"  -> <<CP(3)>>
+      [] b = "cpwto"   -> <<CP(4), W>>
+      [] b = "cperr"   -> <<CP(5)>>
+      [] b = "wstring" -> <<CP(6)>>
+      [] b = "fprintf" -> <<WH(404), CP(7)>>
+      [] b = "servecontent" -> <<CP(8)>>
 AllBehNames == {"none", "w", "wh200", "wh404", "wh500", "twice", "afterw"}
 ClassBehNames == {"wh101", "wh103", "hints", "wh204", "wh304", "wh599", "wh999"}
+StreamBehNames == {"cpsep", "cpwith", "cpzero", "cpwto", "cperr", "wstring", "fprintf", "servecontent"}
+(* kinds of the client's own writer: what it offers beyond http.ResponseWriter *)
+ClientKinds == {"plain", "readerfrom", "stringwriter"}
 HijackBehNames == {"hj", "hjfail", "hjunsup", "flush", "flfirst", "deadline", "duplex"}
 
 (* Request-target forms (RFC 9112 3.2).  The RequestURI field of the request *)
@@ -81,7 +105,7 @@ LastWh(o)  == LET I == {j \in 1..Len(o) : o[j].op = "wh"}
 (* WriteHeader with a final code (101 or >= 200) wins; a Write before that,  *)
 (* or the end of the handler, implies 200.                                   *)
 Informational(c) == c >= 100 /\ c <= 199 /\ c # 101
-Decisive(calls) == {x \in 1..Len(calls) : (calls[x].op \in {"w", "fl"})
+Decisive(calls) == {x \in 1..Len(calls) : (calls[x].op \in {"w", "fl", "cp"})
                                            \/ (calls[x].op = "wh" /\ ~Informational(calls[x].c))}
 ClientStatus(calls) ==
     IF Decisive(calls) = {} THEN 200
